@@ -9,6 +9,10 @@
 #include <sstream>
 #include <string>
 #include <vector>
+#include <list>
+#include <deque>
+#include <string_view>
+#include <cwchar>
 #include <dune/common/exceptions.hh>
 #include <dune/common/path.hh>
 #include <dune/common/stringutility.hh>
@@ -50,6 +54,19 @@ static std::string run(const std::vector<std::string>& t)
     if (op == "relpath") return esc(Dune::relativePath(unesc(t.at(1)), unesc(t.at(2))));
     if (op == "prefix") return Dune::hasPrefix(unesc(t.at(1)), unesc(t.at(2)).c_str()) ? "1" : "0";
     if (op == "suffix") return Dune::hasSuffix(unesc(t.at(1)), unesc(t.at(2)).c_str()) ? "1" : "0";
+    if (op.rfind("prefix_", 0) == 0 || op.rfind("suffix_", 0) == 0) {
+      // other character containers: the templates only use size(), begin(), const_iterator, std::advance
+      const std::string c = unesc(t.at(1)), x = unesc(t.at(2));
+      const bool pre = op[0] == 'p';
+      const std::string k = op.substr(7);
+      bool r;
+      if (k == "vec") { const std::vector<char> v(c.begin(), c.end()); r = pre ? Dune::hasPrefix(v, x.c_str()) : Dune::hasSuffix(v, x.c_str()); }
+      else if (k == "list") { const std::list<char> v(c.begin(), c.end()); r = pre ? Dune::hasPrefix(v, x.c_str()) : Dune::hasSuffix(v, x.c_str()); }
+      else if (k == "deque") { const std::deque<char> v(c.begin(), c.end()); r = pre ? Dune::hasPrefix(v, x.c_str()) : Dune::hasSuffix(v, x.c_str()); }
+      else if (k == "sv") { const std::string_view v(c); r = pre ? Dune::hasPrefix(v, x.c_str()) : Dune::hasSuffix(v, x.c_str()); }
+      else return "UNKNOWN-KIND";
+      return r ? "1" : "0";
+    }
     if (op == "format") {
       // format <fmt> <kind> <arg> <expected expansion (used by the model only)>
       const std::string fmt = unesc(t.at(1));
@@ -64,6 +81,21 @@ static std::string run(const std::vector<std::string>& t)
         std::string a = unesc(t.at(3)); auto k = a.rfind(',');
         return esc(Dune::formatString(fmt, a.substr(0, k).c_str(), (int) std::stol(a.substr(k + 1))));
       }
+      if (kind == "lld") return esc(Dune::formatString(fmt, (long long) std::stoll(t.at(3))));
+      if (kind == "lu") return esc(Dune::formatString(fmt, (unsigned long) std::stoull(t.at(3))));
+      if (kind == "zu") return esc(Dune::formatString(fmt, (std::size_t) std::stoull(t.at(3))));
+      if (kind == "ch") return esc(Dune::formatString(fmt, (char) std::stol(t.at(3))));
+      if (kind == "fd") {   // "<double>,<int>"
+        std::string a = unesc(t.at(3)); auto k = a.rfind(',');
+        return esc(Dune::formatString(fmt, std::strtod(a.substr(0, k).c_str(), nullptr), (int) std::stol(a.substr(k + 1))));
+      }
+      if (kind == "sds") {  // "<string>,<int>,<string>"  (std::string::c_str() and a literal-like const char*)
+        std::string a = unesc(t.at(3)); auto k1 = a.find(','), k2 = a.rfind(',');
+        const std::string s1 = a.substr(0, k1), s2 = a.substr(k2 + 1);
+        const char* p2 = s2.c_str();
+        return esc(Dune::formatString(fmt, s1.c_str(), (int) std::stol(a.substr(k1 + 1, k2 - k1 - 1)), p2));
+      }
+      if (kind == "lc") return esc(Dune::formatString(fmt, (wint_t) std::stoul(t.at(3))));   // unconvertible in the C locale: snprintf < 0
       if (kind == "none") return esc(Dune::formatString(fmt));
       return "UNKNOWN-KIND";
     }
